@@ -12,8 +12,8 @@ MNext ==
        \/ w \in {6, 7} /\ RegisterEff(d) /\ last' = [act |-> "Register", res |-> Res(RegisterOK(d)), denom |-> d]
        \/ w = 8 /\ ToggleEff(d) /\ last' = [act |-> "Toggle", res |-> Res(ToggleOK(d)), denom |-> d]
        \/ w \in {9, 10} /\ \E on \in {IF enabled THEN Pick(1..2) = 1 ELSE TRUE} : ParamEff(on) /\ last' = [act |-> "Param", res |-> "ok", on |-> on]
-       \/ w = 11 /\ RegisterExtEff /\ last' = [act |-> "RegisterExt", res |-> Res(RegisterExtOK)]
-       \/ w \in {12, 13} /\ AddExtEff(d) /\ last' = [act |-> "AddExt", res |-> Res(AddExtOK(d)), denom |-> d]
+       \/ w = 11 /\ \E bad \in {Pick(1..3) = 1} : RegisterExtEff(bad) /\ last' = [act |-> "RegisterExt", res |-> Res(RegisterExtOK), bad |-> bad]
+       \/ w \in {12, 13} /\ (\A e \in Vouchers : ~ext[e]) /\ AddExtEff(d) /\ last' = [act |-> "AddExt", res |-> Res(AddExtOK(d)), denom |-> d]
        \/ w = 14 /\ \E n \in {Pick({1, 2})} : mx + n <= 3 /\ FundEff(n) /\ last' = [act |-> "Fund", res |-> "ok", n |-> n]
   /\ hist' = Append(hist, last')
 MSpec == MInit /\ [][MNext]_<<vars, hist>>
